@@ -338,7 +338,10 @@ DATES = ["2020", "1999", "0001", "9999", "0000", "2020-02-29", "2019-02-29", "19
          "2020-13-01", "2020-00-10", "2020-01-00", "2020-01-32", "2020-04-31", "2020-02-30", "2020-1-5", "2020-01-5", "2020-1-05",
          "20200101", "2020-01", "2020-01-01-01", "202", "20201", "12020", "-2020", "+2020", "2020-", "-01-01", "2020/01/01",
          "01-01-2020", "2020-01-01T00:00:00", "2020-01-01Z", " 2020", "2020 ", "２０２０", "٢٠٢٠", "MMXX", "2020-Jan-01", "2020-W01",
-         "2020-001", "0000-01-01", "0001-01-01", "9999-12-31", "2020-02-29 ", "20-02-29"]
+         "2020-001", "0000-01-01", "0001-01-01", "9999-12-31", "2020-02-29 ", "20-02-29",
+         # the other ISO 8601 date forms (week dates, ordinal dates, compact forms) and dates with a time zone: neither YYYY nor YYYY-MM-DD
+         "2020-W01-1", "2004-W53-6", "2020W011", "2020-W53", "2020-366", "2020366", "2020-02-29+02:00", "2020-02-29T", "2020-02", "--02-29",
+         "2020-02-29.0", "2020.5", "2100-02-29", "1600-02-29", "2020-06-31", "2020-11-31"]
 
 URIS = ["http://exämple..org/", "http://.exämple.org/", "http://ex\xadample.org/x", "http://" + "ä" * 70 + ".org/", "http://ex\x80ample.org/",
         "https://example.org/a/b", "http://example.org", "http://example.org/", "ftp://ftp.example.org/pub/x.txt",
